@@ -19,7 +19,7 @@ ASSUMPTIONS = ['peer frames still in flight after a local cancel are legal peer 
                'the application publisher is Reactive-Streams legal (no emission beyond credit or after its terminal)']
 BUDGET_S = {'quick': 240, 'thorough': 3000}
 
-DEPTH = {'quick': {'rr': 4, 'stream': 5, 'chan_req': 4, 'chan_resp': 4}, 'thorough': {'rr': 6, 'stream': 6, 'chan_req': 5, 'chan_resp': 5}}
+DEPTH = {'quick': {'rr': 5, 'stream': 5, 'chan_req': 5, 'chan_resp': 5}, 'thorough': {'rr': 7, 'stream': 7, 'chan_req': 6, 'chan_resp': 6}}
 
 
 def bounds(tier):
